@@ -794,6 +794,8 @@ def g_unreg(draw, depth, sampled):
 def cases(draw, tier):
     depth = 2 if tier == "quick" else 3
     u = draw(st.integers(0, 19))
+    if u == 19 and draw(st.booleans()):
+        return g_isclose_nan(draw)
     if u < 2:
         return g_unreg(draw, depth, sampled=False)
     if u < 4:
@@ -1522,9 +1524,78 @@ def _check_unreg(case):
     return out
 
 
+def g_isclose_nan(draw):
+    """torch.isclose with NaN entries and every keyword, in both operand orders, on operators wrapping a tensor that HOLDS
+    the NaNs (the recipe literals are finite; the NaN positions are applied to the materialised tensor)."""
+    n = draw(st.integers(1, 3))
+    batch = draw(st.sampled_from([(), (), (2,)]))
+    dt = draw(st.sampled_from(["f64", "f32"]))
+    cfg = gen.Cfg(dt=dt)
+    numel = int(torch.Size(batch + (n, n)).numel())
+    return {
+        "kind": "isclose_nan", "dt": dt,
+        "t": gen.flit(draw, cfg, batch + (n, n), -8, 8),
+        "wrap": draw(st.sampled_from(["Dense", "Dense", "ConstantMul", "Sum", "Tri"])),
+        "nan_op": sorted(set(draw(st.lists(st.integers(0, numel - 1), min_size=1, max_size=2)))),
+        "nan_other": sorted(set(draw(st.lists(st.integers(0, numel - 1), min_size=0, max_size=2)))),
+        "delta": draw(st.sampled_from([0.0, 0.0, 0.5])),
+        "order": draw(st.sampled_from(["first", "second", "second"])),
+        "equal_nan": draw(st.sampled_from([True, True, False])),
+        "form": draw(st.sampled_from(["kw", "kw", "pos5"])),
+    }
+
+
+def _check_isclose_nan(case):
+    from linear_operator import operators as O
+
+    base = L.materialise(case["t"]).clone()
+    flat = base.view(-1)
+    for i in case["nan_op"]:
+        flat[i] = float("nan")
+    if case["wrap"] == "Tri":
+        base = torch.tril(base)  # (a NaN in the strict upper triangle disappears: still a legal input)
+    other = base.clone() + case["delta"]
+    oflat = other.view(-1)
+    for i in case["nan_other"]:
+        oflat[i] = float("nan")
+    if case["wrap"] == "Dense":
+        op, dense = O.DenseLinearOperator(base), base
+    elif case["wrap"] == "ConstantMul":
+        op, dense = O.DenseLinearOperator(base) * 2.0, base * 2.0
+        other = other * 2.0
+    elif case["wrap"] == "Sum":
+        z = torch.zeros_like(base)
+        op, dense = O.SumLinearOperator(O.DenseLinearOperator(base), O.DenseLinearOperator(z)), base + z
+    else:
+        op, dense = O.TriangularLinearOperator(base), base
+    en = bool(case["equal_nan"])
+    a, b, da, db = (op, other, dense, other) if case["order"] == "first" else (other, op, other, dense)
+    ref = torch.isclose(da, db, 1e-05, 1e-08, en)
+    try:
+        got = torch.isclose(a, b, 1e-05, 1e-08, en) if case["form"] == "pos5" else torch.isclose(a, b, equal_nan=en)
+    except Exception as e:
+        raise Violation("C15|torch.isclose|%s|%s|exc:%s" % (case["order"], case["wrap"], X.describe(e)), "torch.isclose with NaN entries raised %r (equal_nan=%s, form %s)" % (e, en, case["form"]))
+    got = got.to_dense() if _is_op(got) else got
+    if tuple(got.shape) != tuple(ref.shape) or not bool((got.to(torch.bool) == ref).all()):
+        raise Violation(
+            "C15|torch.isclose|%s|%s|nan-value" % (case["order"], case["wrap"]),
+            "torch.isclose(%s, %s, equal_nan=%s) [%s form] differs from torch on the dense operands: got %s, dense %s (NaN at %s in the operator, %s in the tensor)"
+            % ("op" if case["order"] == "first" else "tensor", "tensor" if case["order"] == "first" else "op", en, case["form"], got.tolist(), ref.tolist(), case["nan_op"], case["nan_other"]),
+        )
+    shared = bool((torch.isnan(da) & torch.isnan(db)).any())
+    return {
+        "nontrivial": shared and en,
+        "key": case,
+        "labels": ["kind:isclose_nan", "cell:torch.isclose|%s" % case["order"], "equal_nan:%s" % en, "shared_nan:%s" % shared, "wrap:" + case["wrap"]],
+        "sample": {"fn": "torch.isclose", "order": case["order"], "equal_nan": en, "wrap": case["wrap"]},
+    }
+
+
 def check(case):
     if case.get("kind") == "unreg":
         return _check_unreg(case)
+    if case.get("kind") == "isclose_nan":
+        return _check_isclose_nan(case)
     return _check_reg(case)
 
 
